@@ -559,6 +559,8 @@ Definition xcase_dom (c : xcase) : bool :=
                     | None => true
                     end) (x_analyse c).
 
+(* "the computation terminates" is claimed at full strength: a run that had to be cut off (confirmed
+   watchdog timeout, patch or resolution budget) fails the property whatever the domain *)
 Definition xcase_spec_ok (c : xcase) : bool :=
-  match x_observed c with XOutOfFuel _ => negb (xcase_dom c) | _ => true end &&
+  match x_observed c with XOutOfFuel _ => false | _ => true end &&
   x_passes_ok c [] (xiters_of (x_observed c)) && (negb (xcase_dom c) || xcase_prop_up c).
